@@ -42,7 +42,7 @@ for m in muts:
                 print(f"FAIL {m['id']}: variant does not build: {r.stderr[:300]}")
                 fails += 1
                 raise StopIteration
-        r = subprocess.run(['/verif/bin/templvet', '-repo', dst, '-verif', d, '-property', m['property'], '-tier', args.tier],
+        r = subprocess.run(['/verif/bin/templvet', '-repo', dst, '-verif', d, '-property', m['property'], '-tier', m.get('tier', args.tier)],
                            capture_output=True, text=True, env=env)
         # -verif d: evidence goes to the scratch dir; known findings are copied so that expected ones stay quiet
         out = r.stdout + r.stderr
